@@ -148,7 +148,6 @@ func c14Concurrent(c *core.Ctx) {
 	c.DistinctAdd(int64(rounds))
 }
 
-
 func c14Body(c *core.Ctx) {
 	if c.Mode == "concurrent" {
 		c14Concurrent(c)
